@@ -53,10 +53,12 @@ def build(spec):
         return E.LinearBlockCodeEncoder(kw["G"])
     if fam == "systematic":
         return E.SystematicLinearBlockCodeEncoder(parity_submatrix=kw["P"], information_set=kw["info"])
+    import torch
+    opt = {"dtype": getattr(torch, kw["dtype"])} if "dtype" in kw else {}       # the encoders' own dtype option (dtype-spelling family)
     if fam == "hamming":
-        return E.HammingCodeEncoder(mu=kw["mu"], extended=kw["extended"], information_set=kw["info"])
+        return E.HammingCodeEncoder(mu=kw["mu"], extended=kw["extended"], information_set=kw["info"], **opt)
     if fam == "golay":
-        return E.GolayCodeEncoder(extended=kw["extended"], information_set=kw["info"])
+        return E.GolayCodeEncoder(extended=kw["extended"], information_set=kw["info"], **opt)
     if fam == "repetition":
         return E.RepetitionCodeEncoder(repetition_factor=kw["n"])
     if fam == "spc":
@@ -79,9 +81,9 @@ def build(spec):
             return E.BCHCodeEncoder.create_standard_code(kw["name"], information_set=kw["info"])
         if "rate" in kw:
             return E.BCHCodeEncoder.from_design_rate(kw["mu"], kw["rate"], information_set=kw["info"])
-        return E.BCHCodeEncoder(mu=kw["mu"], delta=kw["delta"], information_set=kw["info"])
+        return E.BCHCodeEncoder(mu=kw["mu"], delta=kw["delta"], information_set=kw["info"], **opt)
     if fam == "rs":
-        return E.ReedSolomonCodeEncoder(mu=kw["mu"], delta=kw["delta"], information_set=kw["info"])
+        return E.ReedSolomonCodeEncoder(mu=kw["mu"], delta=kw["delta"], information_set=kw["info"], **opt)
     if fam == "ldpc":
         return E.LDPCCodeEncoder(check_matrix=kw["H"])
     raise KeyError(fam)
@@ -339,6 +341,14 @@ def dtype_spellings(tier, seed):
     for nm, H in Hs.items():
         for dt in dts:
             yield ("ldpc", f"H={nm},dtype={dt}", {"H": T(H, dt), "admissible": False})
+    # the named families' own dtype= option: same code, matrices published in that dtype
+    for dt in ("float64", "float16", "int64", "int32", "uint8", "bool"):
+        for ext in (False, True):
+            for info in ("left", "right"):
+                yield ("hamming", f"mu=3,ext={int(ext)},info={info},dtype={dt}", {"mu": 3, "extended": ext, "info": info, "dtype": dt, "admissible": False})
+        for mu, delta in ((3, 3), (4, 3), (4, 5), (4, 7)):
+            yield ("bch", f"mu={mu},delta={delta},info=left,dtype={dt}", {"mu": mu, "delta": delta, "info": "left", "dtype": dt, "admissible": True, "may_reject": True})
+        yield ("golay", f"ext=0,info=left,dtype={dt}", {"extended": False, "info": "left", "dtype": dt, "admissible": False})
 
 
 def mixing_sequences():
